@@ -40,6 +40,20 @@ var Hashers = []Hasher{
 	{"high-bits", func(k int) uint32 { return uint32(k) << 27 }},        // only bits 27..31 differ (k mod 32)
 	{"pairs-collide", func(k int) uint32 { return uint32(k / 2) }},      // full 32-bit collisions in pairs
 	{"triples-collide", func(k int) uint32 { return uint32(k/3) * 33 }}, // triples collide, spread over two levels
+	{"pairs-shared-path", func(k int) uint32 { return uint32(k/2) << 5 }}, // pairs collide; all keys share the root fragment
+	// keys 0 and 32 collide on all 32 bits; keys 1 and 2 have other hashes that share the first
+	// 5-bit fragment with them, so they are merged beside the collision leaf one level down
+	{"beside-collision", func(k int) uint32 {
+		switch k {
+		case 0, 32:
+			return 7
+		case 1:
+			return 7 + 32
+		case 2:
+			return 7 + 64
+		}
+		return uint32(k) * 2654435761
+	}},
 }
 
 func HasherByName(n string) Hasher {
